@@ -87,7 +87,15 @@ class SBool extends SV {
 }
 class SStr extends SV {         // chars: array of (number | SNum 'i'), concrete length
   constructor(chars) { super(); this.chars = chars; }
-  get length() { return this.chars.length; }
+  [Symbol.toPrimitive]() {
+    // only a message that embeds a formatted symbolic number may be rendered natively (the digits become '#'); flagged on the path
+    if (this.chars.every(c => typeof c === 'number' || c instanceof NumSeg) && this.chars.some(c => c instanceof NumSeg)) {
+      if (RT.st) RT.st.flags.numseg_rendered = true;
+      return this.chars.map(c => typeof c === 'number' ? String.fromCharCode(c) : '#').join('');
+    }
+    throw new Abort('unsupported', 'implicit coercion of a symbolic string by a native operation');
+  }
+  get length() { if (this.chars.some(c => c instanceof NumSeg)) return unsupported('length of a string containing a formatted symbolic number'); return this.chars.length; }
   charCodeAt(i) { return RT.strCharCodeAt(this, i); }
   substring(a, b) { return RT.strSubstring(this, a, b); }
   slice(a, b) { return RT.strSubstring(this, a, b === undefined ? this.chars.length : b); }
@@ -95,6 +103,7 @@ class SStr extends SV {         // chars: array of (number | SNum 'i'), concrete
   indexOf() { return unsupported('indexOf on symbolic string'); }
   toString() { return this; }
 }
+class NumSeg { constructor(v) { this.v = v; } }
 class Quot extends SV {         // result of `/` on two exact integers, consumed by truncation / self-comparison
   constructor(n, d) { super(); this.n = n; this.d = d; }
 }
@@ -122,7 +131,7 @@ function makeTA(name) {
     constructor(a, off, len) {
       if (a instanceof TABuf) { this.buffer = a; this.$off = (off || 0) / (bits / 8); this.length = len === undefined ? (a.data.length - this.$off) : len; }
       else if (typeof a === 'number' || a === undefined) { this.buffer = new TABuf(a || 0); this.$off = 0; this.length = a || 0; }
-      else if (isSym(a)) { return unsupported('typed array with symbolic length'); }
+      else if (isSym(a)) { const n = RT.concrete(a); this.buffer = new TABuf(n); this.$off = 0; this.length = n; }
       else { // array-like / iterable
         const src = (a instanceof TAbase) ? a.$toArray() : Array.from(a);
         this.buffer = new TABuf(src.length); this.$off = 0; this.length = src.length;
@@ -241,6 +250,8 @@ const RT = {
   // make sure an integer result is exactly representable as a double (|r| <= 2^53)
   exactI(r) {
     if (r.lo >= -P53 && r.hi <= P53) return r;
+    // a multiple of 2^tz is representable exactly as a double up to 2^(53+tz)
+    if (r.tz > 0 && r.tz < 64) { const lim = P53 << big(Math.min(r.tz, 60)); if (r.lo >= -lim && r.hi <= lim) return r; }
     const bad = '(or (< ' + r.t + ' ' + lit(-P53) + ') (> ' + r.t + ' ' + lit(P53) + '))';
     const res = this.solver.check([this.nameBool(bad)]);
     if (res === 'unsat') { return { t: r.t, lo: r.lo < -P53 ? -P53 : r.lo, hi: r.hi > P53 ? P53 : r.hi, tz: r.tz }; }
@@ -248,8 +259,9 @@ const RT = {
     const f = this.fresh('Int', 'rnd');
     this.st.flags.rounded = true;
     this.assertTerm('(=> (and (<= ' + lit(-P53) + ' ' + r.t + ') (<= ' + r.t + ' ' + lit(P53) + ')) (= ' + f + ' ' + r.t + '))');
-    this.assertTerm('(=> (> ' + r.t + ' ' + lit(P53) + ') (and (>= ' + f + ' ' + lit(P53) + ') (<= (* ' + lit(P53) + ' (absi (- ' + f + ' ' + r.t + '))) ' + r.t + ')))');
-    this.assertTerm('(=> (< ' + r.t + ' ' + lit(-P53) + ') (and (<= ' + f + ' ' + lit(-P53) + ') (<= (* ' + lit(P53) + ' (absi (- ' + f + ' ' + r.t + '))) (- ' + r.t + '))))');
+    // (sound, deliberately weak: exact inside the safe range, and rounding never crosses +-2^53)
+    this.assertTerm('(=> (> ' + r.t + ' ' + lit(P53) + ') (>= ' + f + ' ' + lit(P53) + '))');
+    this.assertTerm('(=> (< ' + r.t + ' ' + lit(-P53) + ') (<= ' + f + ' ' + lit(-P53) + '))');
     return { t: f, lo: r.lo - (r.lo < 0n ? -r.lo : r.lo) / P53 - 1n, hi: r.hi + (r.hi < 0n ? -r.hi : r.hi) / P53 + 1n, tz: 0 };
   },
   nameBool(t) { const name = 'c' + (++this.tcount); const d = '(define-fun ' + name + ' () Bool ' + t + ')'; this.st.defs.push(d); this.solver.send(d); return name; },
@@ -391,9 +403,9 @@ const RT = {
     if (!isSym(a) && !isSym(b)) {
       switch (op) {
         case '+': return a + b; case '-': return a - b; case '*': return a * b; case '/': return a / b; case '%': return a % b;
-        case '===': return a === b || (a === ShimString && b === String) || (b === ShimString && a === String) || (a === ShimNumber && b === Number) || (b === ShimNumber && a === Number);
+        case '===': return a === b || (typeof a === 'function' && typeof b === 'function' && shimPair(a, b));
         case '!==': return !this.b('===', a, b);
-        case '==': return a == b || (a === ShimString && b === String) || (b === ShimString && a === String);
+        case '==': return a == b || (typeof a === 'function' && typeof b === 'function' && shimPair(a, b));
         case '!=': return !this.b('==', a, b);
         case '<': return a < b; case '<=': return a <= b; case '>': return a > b; case '>=': return a >= b;
         case '&': return a & b; case '|': return a | b; case '^': return a ^ b;
@@ -812,7 +824,7 @@ const RT = {
     return null;
   },
   mkStr(chars) {
-    if (chars.every(c => typeof c === 'number')) return String.fromCharCode.apply(null, chars);
+    if (chars.every(c => typeof c === 'number')) { let out = ''; for (let i = 0; i < chars.length; i += 8192) out += String.fromCharCode.apply(null, chars.slice(i, i + 8192)); return out; }
     return new SStr(chars);
   },
   strBin(op, a, b) {
@@ -856,9 +868,12 @@ const RT = {
   },
   numToStrChars(x) {
     if (!isSym(x)) return this.strView(String(x));
+    // decimal rendering of a symbolic number: an opaque segment (its digits are never inspected; the string's length is unknown)
+    if (x instanceof SNum) return [new NumSeg(x)];
     return unsupported('conversion of ' + describe(x) + ' to string');
   },
   strCharCodeAt(s, i) {
+    if (s.chars.some(c => c instanceof NumSeg)) return unsupported('indexing a string that contains a formatted symbolic number');
     if (!isSym(i)) { i = i === undefined ? 0 : Math.trunc(i); return (i >= 0 && i < s.chars.length) ? s.chars[i] : NaN; }
     const iv = this.asI(i); if (!iv) return unsupported('charCodeAt index');
     if (!this.c(this.b('>=', i, 0)) || !this.c(this.b('<', i, s.chars.length))) return NaN;
@@ -955,7 +970,7 @@ const RT = {
       const g = env.env.cur();
       st.yielded++;
       env.env.block();
-      globalThis.__jsx_setTimeout(() => env.env.schedule(g), 0);
+      env.env.setTimeout(() => env.env.schedule(g), 0);    // like runtime.Gosched: $setTimeout keeps the goroutine counted as awake
       return { $blk() { return; } };
     }
     return unsupported('intrinsic ' + name);
@@ -1134,6 +1149,16 @@ const origFCCApply = Function.prototype.apply;
 ShimString.fromCharCode.apply = function (self, arr) { return ShimString.fromCharCode(...(arr instanceof TAbase ? arr.$toArray() : Array.from(arr))); };
 ShimString.fromCodePoint = String.fromCodePoint;
 ShimString.prototype = String.prototype;
+function shimPair(a, b) {
+  return (a === ShimString && b === String) || (b === ShimString && a === String) || (a === ShimNumber && b === Number) || (b === ShimNumber && a === Number) ||
+    (a === ShimArray && b === Array) || (b === ShimArray && a === Array);
+}
+function ShimArray(...args) {
+  if (args.length === 1 && isSym(args[0])) args[0] = RT.concrete(args[0]);
+  return new Array(...args);
+}
+ShimArray.prototype = Array.prototype;
+for (const k of ['isArray', 'from', 'of']) ShimArray[k] = Array[k];
 function ShimNumber(v) { if (!isSym(v)) return Number(v); if (v instanceof SNum) return v; return unsupported('Number()'); }
 for (const k of ['MAX_SAFE_INTEGER', 'MIN_SAFE_INTEGER', 'MAX_VALUE', 'MIN_VALUE', 'EPSILON', 'POSITIVE_INFINITY', 'NEGATIVE_INFINITY', 'NaN', 'isInteger', 'isFinite', 'isNaN', 'isSafeInteger', 'parseFloat', 'parseInt']) ShimNumber[k] = Number[k];
 ShimNumber.prototype = Number.prototype;
@@ -1161,7 +1186,7 @@ function serialise(v, depth) {
   depth = depth || 0;
   if (v instanceof SNum) return v.k === 'i' ? { i: v.t, lo: String(v.lo), hi: String(v.hi), nan: v.nan || undefined } : { f: v.t };
   if (v instanceof SBool) return { b: v.t };
-  if (v instanceof SStr) return { s: v.chars.map(c => typeof c === 'number' ? c : c.t) };
+  if (v instanceof SStr) return { s: v.chars.map(c => typeof c === 'number' ? c : (c instanceof NumSeg ? '#num' : c.t)) };
   if (v instanceof Quot) return { quot: [v.n.t, v.d.t] };
   if (typeof v === 'number') {
     if (Number.isInteger(v) && !Object.is(v, -0)) return { i: lit(v), lo: String(v), hi: String(v), c: v };
@@ -1200,7 +1225,7 @@ function runPath(compiled, prefix, cfg) {
   const defg = (k, v) => Object.defineProperty(sandboxGlobal, k, { value: v, writable: true, configurable: true, enumerable: true });
   defg('process', processShim); defg('require', undefined); defg('fs', undefined);
   for (const n of Object.keys(TA_KINDS)) defg(n, RT.TA[n]);
-  defg('Map', SMap); defg('Math', ShimMath); defg('String', ShimString); defg('Number', ShimNumber);
+  defg('Map', SMap); defg('Array', ShimArray); defg('Math', ShimMath); defg('String', ShimString); defg('Number', ShimNumber);
   defg('console', consoleShim); defg('setTimeout', setTimeoutShim); defg('clearTimeout', clearTimeoutShim); defg('Date', DateShim);
   defg('parseInt', shimParseInt); defg('parseFloat', shimParseFloat); defg('isNaN', shimIsNaN); defg('isFinite', shimIsFinite);
   defg('global', sandboxGlobal); defg('globalThis', sandboxGlobal);
@@ -1214,10 +1239,11 @@ function runPath(compiled, prefix, cfg) {
     let msg = e && e.message !== undefined ? e.message : e;
     let goErr = null;
     if (e && e.$panicValue !== undefined) goErr = serialise(e.$panicValue);
-    term = { kind: 'uncaught', where, name: e && e.name, msg: (msg instanceof SStr) ? serialise(msg) : { c: String(msg) }, goErr };
+    if (msg instanceof SStr) msg = msg.chars.map(c => typeof c === 'number' ? String.fromCharCode(c) : '#').join('');
+    term = { kind: 'uncaught', where, name: e && e.name, msg: { c: String(msg) }, goErr };
   };
   try {
-    compiled.call(undefined, RT, sandboxGlobal, requireShim, undefined, consoleShim, processShim, ShimMath, ShimString, ShimNumber, SMap,
+    compiled.call(undefined, ShimArray, RT, sandboxGlobal, requireShim, undefined, consoleShim, processShim, ShimMath, ShimString, ShimNumber, SMap,
       shimParseInt, shimParseFloat, shimIsNaN, shimIsFinite, setTimeoutShim, clearTimeoutShim, DateShim,
       RT.TA.Int8Array, RT.TA.Uint8Array, RT.TA.Int16Array, RT.TA.Uint16Array, RT.TA.Int32Array, RT.TA.Uint32Array, RT.TA.Float32Array, RT.TA.Float64Array, TABuf);
   } catch (e) { fail(e, 'main'); }
@@ -1239,7 +1265,7 @@ function runPath(compiled, prefix, cfg) {
   return rec;
 }
 
-const PARAMS = ['$$', 'global', 'require', 'module', 'console', 'process', 'Math', 'String', 'Number', 'Map', 'parseInt', 'parseFloat', 'isNaN', 'isFinite',
+const PARAMS = ['Array', '$$', 'global', 'require', 'module', 'console', 'process', 'Math', 'String', 'Number', 'Map', 'parseInt', 'parseFloat', 'isNaN', 'isFinite',
   'setTimeout', 'clearTimeout', 'Date', 'Int8Array', 'Uint8Array', 'Int16Array', 'Uint16Array', 'Int32Array', 'Uint32Array', 'Float32Array', 'Float64Array', 'ArrayBuffer'];
 
 function explore(instrumentedCode, cfg) {
